@@ -209,6 +209,7 @@ def ev(node):
         raise Invalid('eager op above an iteration that may refuse (duplicate keys)')
     out = ev_unary(op, node, m)
     by_index = (op in ('slice', 'shuffle_once', 'sort', 'shard', 'catch', 'reshuffle')
+                or (op == 'apply' and node['fn'] == 'shuffle')
                 or (op == 'cache' and node['lazy']) or (op == 'filter' and not node['lazy'])
                 or (op == 'prefetch' and (node['workers'] > 1 or node.get('catch', False) is not False)))
     it = m.iter_taint or (op == 'items' and m.cap_items == 'opt') or (by_index and m.int_taint)
@@ -474,6 +475,16 @@ def ev_unary(op, node, m):
             raise Invalid('multi-worker prefetch needs a dataset that is indexable once frozen')
         return Model(vals, keys, 'no', 'no', 'no', indexable=False, sized=spec is False, unordered=m.unordered,
                      taint=m.taint)
+    if op == 'apply':
+        if m.has_raise:
+            raise Invalid('lazy apply above a raising element (not generated)')
+        if node['fn'] == 'map':
+            return Model([progs.f_wrap(0, v) for v in m.vals], m.keys, 'no', m.cap_items, 'no', indexable=False,
+                         sized=False, unordered=m.unordered, taint=m.taint)
+        if node['fn'] == 'shuffle' and not (m.fidx and m.sized):
+            raise Invalid('apply(shuffle) needs a dataset that is indexable once frozen')
+        return Model(m.vals, m.keys, 'no', cmin(m.cap_items, 'opt'), 'no', indexable=False, sized=False,
+                     unordered=True, taint=m.taint)
     if op == 'reshuffle':
         if not (m.indexable and m.sized) or m.has_raise:
             raise Invalid('reshuffle needs an indexable dataset')
